@@ -39,12 +39,11 @@ def Bounded : G → Prop
   | .zipCons g z => Bounded g ∧ Bounded z ∧ ∀ v, Outs z v → ∃ xs, v = .tuple xs
   | .flat z _ => Bounded z
   | .map f g => Bounded g ∧ ∀ v, Outs g v → ∃ w, applyMap f v = .ok w
-  | .allT tmpl _ _ => Bounded tmpl ∧ ∀ v, Outs tmpl v → hashable v = true
-  | .anyT tmpl => Bounded tmpl ∧ ∀ v, Outs tmpl v → hashable v = true
-  | .anyT2 vals => ∀ v ∈ vals, hashable v = true
+  | .allT tmpl _ _ => Bounded tmpl
+  | .anyT tmpl => Bounded tmpl
   | .setOfT _ => False
   | .allF tmpl => Bounded tmpl
-  | .setOfF tmpl => Bounded tmpl ∧ ∀ v, Outs tmpl v → hashable v = true
+  | .setOfF tmpl => Bounded tmpl
   | _ => True
 
 /-- One `next()` finished: a value and a `Bounded` successor that needs no more fuel, or the end. -/
@@ -220,48 +219,53 @@ theorem pull_bounded : ∀ fuel, StepBounded fuel := by
       match ph with
       | 0 => exact Or.inl ⟨.list [], .allT tmpl 1 0, t, by simp [pull], hb, by simp [cost]⟩
       | 1 =>
-        obtain ⟨vs, t2, h2⟩ := takeWith_bounded ih (t.randint 1 10).1.toNat tmpl (t.randint 1 10).2 hb.1 (by omega)
+        obtain ⟨vs, t2, h2⟩ := takeWith_bounded ih (t.randint 1 10).1.toNat tmpl (t.randint 1 10).2 hb (by omega)
         cases vs with
         | nil => exact Or.inr ⟨t2, by simp [pull, h2]⟩
         | cons a as =>
           simp only [Done, pull, h2]
           exact Or.inl ⟨_, _, _, rfl, hb, by simp [cost]⟩
       | 2 =>
-        obtain ⟨vs, t2, h2⟩ := takeWith_bounded ih n tmpl t hb.1 (by omega)
+        obtain ⟨vs, t2, h2⟩ := takeWith_bounded ih n tmpl t hb (by omega)
         cases vs with
         | nil => exact Or.inr ⟨t2, by simp [pull, h2]⟩
         | cons a as =>
-          have hv := take_outs (pull_sound fuel) h2
-          have hh := mkSet_of_hashable (xs := (comb (a :: as) n t2).1)
-            (fun x hx => hb.2 x (hv x (comb_mem (by simp) _ _ x hx)))
-          simp only [Done, pull, h2, hh]
-          exact Or.inl ⟨_, _, _, rfl, hb, by simp [cost]⟩
+          by_cases hh : hashableL (a :: as) = true
+          · simp only [Done, pull, h2, hh, if_true]
+            exact Or.inl ⟨_, _, _, rfl, hb, by simp [cost]⟩
+          · -- the set variant is skipped: the list round runs in the same `next()`
+            have hh' : hashableL (a :: as) = false := by simpa using hh
+            obtain ⟨vs3, t3, h3⟩ := takeWith_bounded ih n tmpl t2 hb (by omega)
+            cases vs3 with
+            | nil => exact Or.inr ⟨t3, by simp [pull, h2, hh', allList, h3]⟩
+            | cons b bs =>
+              simp only [Done, pull, h2, hh', Bool.false_eq_true, if_false, allList, h3]
+              exact Or.inl ⟨_, _, _, rfl, hb, by simp [cost]⟩
       | k + 3 =>
-        obtain ⟨vs, t2, h2⟩ := takeWith_bounded ih n tmpl t hb.1 (by omega)
+        obtain ⟨vs, t2, h2⟩ := takeWith_bounded ih n tmpl t hb (by omega)
         cases vs with
-        | nil => exact Or.inr ⟨t2, by simp [pull, h2]⟩
+        | nil => exact Or.inr ⟨t2, by simp [pull, allList, h2]⟩
         | cons a as =>
-          simp only [Done, pull, h2]
+          simp only [Done, pull, allList, h2]
           exact Or.inl ⟨_, _, _, rfl, hb, by simp [cost]⟩
     | anyT tmpl =>
       simp only [Bounded] at hb
       simp only [cost] at hc
-      obtain ⟨vs, t2, h2⟩ := takeWith_bounded ih 10 tmpl t hb.1 (by omega)
+      obtain ⟨vs, t2, h2⟩ := takeWith_bounded ih 10 tmpl t hb (by omega)
       cases vs with
       | nil => exact Or.inr ⟨t2, by simp [pull, h2]⟩
       | cons a as =>
-        have hv := take_outs (pull_sound fuel) h2
         simp only [Done, pull, h2]
-        exact Or.inl ⟨_, _, _, rfl, fun x hx => hb.2 x (hv x hx), by simp [cost]⟩
+        exact Or.inl ⟨_, _, _, rfl, by simp [Bounded], by simp [cost]⟩
     | anyT2 vals =>
-      simp only [Bounded] at hb
       cases vals with
       | nil => exact Or.inr ⟨t, by simp [pull]⟩
       | cons a as =>
-        have hh := mkSet_of_hashable (xs := (comb (a :: as) 5 t).1)
-          (fun x hx => hb x (comb_mem (by simp) _ _ x hx))
-        simp only [Done, pull, hh]
-        exact Or.inl ⟨_, _, _, rfl, by simp [Bounded], by simp [cost]⟩
+        by_cases hh : hashableL (a :: as) = true
+        · simp only [Done, pull, hh, if_true]
+          exact Or.inl ⟨_, _, _, rfl, by simp [Bounded], by simp [cost]⟩
+        · have hh' : hashableL (a :: as) = false := by simpa using hh
+          exact Or.inr ⟨t, by simp only [pull, hh', Bool.false_eq_true, if_false]⟩
     | setOfT tmpl => exact absurd hb (by simp [Bounded])
     | allF tmpl =>
       simp only [Bounded] at hb
@@ -275,14 +279,11 @@ theorem pull_bounded : ∀ fuel, StepBounded fuel := by
     | setOfF tmpl =>
       simp only [Bounded] at hb
       simp only [cost] at hc
-      obtain ⟨vs, t2, h2⟩ := takeWith_bounded ih 10 tmpl t hb.1 (by omega)
-      cases vs with
-      | nil => exact Or.inr ⟨t2, by simp [pull, h2]⟩
+      obtain ⟨vs, t2, h2⟩ := takeWith_bounded ih 10 tmpl t hb (by omega)
+      cases hf : vs.filter hashable with
+      | nil => exact Or.inr ⟨t2, by simp only [pull, h2, hf]⟩
       | cons a as =>
-        have hv := take_outs (pull_sound fuel) h2
-        have hh := mkSet_of_hashable (xs := (comb (a :: as) 5 t2).1)
-          (fun x hx => hb.2 x (hv x (comb_mem (by simp) _ _ x hx)))
-        simp only [Done, pull, h2, hh]
+        simp only [Done, pull, h2, hf]
         exact Or.inl ⟨_, _, _, rfl, by simp [Bounded], by simp [cost]⟩
 
 end Gen
